@@ -10,6 +10,9 @@ import (
 	"encoding/hex"
 	"fmt"
 	"math/big"
+	"regexp"
+	"path/filepath"
+	"os"
 	"strings"
 	"sync/atomic"
 
@@ -325,6 +328,40 @@ func pipeline() {
 	r.Add("traces_validated_against_impl", n)
 }
 
+// contractAttest: what token_bridge.ral attestToken can EMIT, read from its source at check time: the order of the
+// concatenated fields and, for every variable-length argument, the exact size it asserts. The guardian cuts the
+// payload at fixed offsets (1, 33, 35, 36, 68, 100); that is only the contract's encoding if every field has
+// exactly that width - an assertion on the total length alone lets symbol and name trade bytes.
+func contractAttest() {
+	b, err := os.ReadFile(filepath.Join(r.Repo, "alephium/contracts/token_bridge/token_bridge.ral"))
+	if err != nil {
+		ev.Broken("token_bridge.ral: %v", err)
+	}
+	src := string(b)
+	i := strings.Index(src, "pub fn attestToken(")
+	if i < 0 {
+		ev.Broken("token_bridge.ral: attestToken not found")
+	}
+	fn := src[i:]
+	if j := strings.Index(fn, "\n    }\n"); j > 0 {
+		fn = fn[:j]
+	}
+	sizes := map[string]string{}
+	for _, m := range regexp.MustCompile(`assert!\(size!\((\w+)\) == (\d+),`).FindAllStringSubmatch(fn, -1) {
+		sizes[m[1]] = m[2]
+	}
+	pm := regexp.MustCompile(`let payload = PayloadId\.AttestToken \+\+\s*(\w+) \+\+\s*u256To2Byte!\((\w+)\) \+\+\s*u256To1Byte!\((\w+)\) \+\+\s*(\w+) \+\+\s*(\w+)\s*\n`).FindStringSubmatch(fn)
+	if pm == nil {
+		ev.Broken("token_bridge.ral: attestToken payload concatenation outside the recognised subset")
+	}
+	r.Set("contract_attest_fields", []string{pm[1] + ":" + sizes[pm[1]], pm[2] + ":2", pm[3] + ":1", pm[4] + ":" + sizes[pm[4]], pm[5] + ":" + sizes[pm[5]]})
+	for _, f := range []string{pm[1], pm[4], pm[5]} {
+		if sizes[f] != "32" {
+			r.Violation("contract encoder: token_bridge.ral attestToken does not pin a field to the 32 bytes the guardian cuts for it", fmt.Sprintf("field %s: asserted size %q (fields in order: %s, chain, decimals, %s, %s)", f, sizes[f], pm[1], pm[4], pm[5]), sizes)
+		}
+	}
+}
+
 func main() {
 	r = ev.Start("C11", "exploration")
 	nums := numAlphabet()
@@ -483,6 +520,7 @@ func main() {
 	r.Set("rule", "events: default well-formed event with every single field and every PAIR of fields replaced by each value of that field's boundary alphabet (26 numerals incl. 0,1,254..256,65534..65536,2^32,2^64-1,2^64,2^64+2,2^80,2^128+255,2^256-1 and non-numeric / prefixed / underscored / leading-zero strings; wrong Val variants and mismatched type tags; sender/nonce/payload length and hex shapes), single-field cases x 4 block timestamps, field counts 0..8, deduplicated; every case except the default is non-trivial; plus 69 conversion identities and the attestation encodings")
 	r.Assume("a node reports U256 values as plain decimal numerals; explicitly signed spellings (+7, -5) are not judged")
 	pipeline()
+	contractAttest()
 	r.Finish()
 }
 
